@@ -244,7 +244,7 @@ func (h *Handler) saltAuthToken(req *http.Request, remote string) (updatedReq *h
 
 	creds := auth.NewCredentials()
 	creds.LoadTokensFromHTTPRequest(updatedReq)
-	if len(creds.Tokens) == 0 && updatedReq.Header.Get("Content-Type") == "application/x-www-form-encoded" {
+	if len(creds.Tokens) == 0 && updatedReq.Header.Get("Content-Type") == "application/x-www-form-urlencoded" {
 		// Override ParseForm's 10MiB limit by ensuring
 		// req.Body is a *http.maxBytesReader.
 		updatedReq.Body = http.MaxBytesReader(nil, updatedReq.Body, 1<<28) // 256MiB. TODO: use MaxRequestSize from discovery doc or config.
@@ -257,7 +257,9 @@ func (h *Handler) saltAuthToken(req *http.Request, remote string) (updatedReq *h
 		if updatedReq.PostForm != nil {
 			updatedReq.PostForm.Del("api_token")
 		}
-		updatedReq.Body = ioutil.NopCloser(bytes.NewBufferString(updatedReq.PostForm.Encode()))
+		encoded := updatedReq.PostForm.Encode()
+		updatedReq.Body = ioutil.NopCloser(bytes.NewBufferString(encoded))
+		updatedReq.ContentLength = int64(len(encoded))
 	}
 	if len(creds.Tokens) == 0 {
 		return updatedReq, nil
